@@ -5,6 +5,7 @@ from mc.core import UnitResult
 from ref import sigs as S
 
 ID = "C07"
+PARTS = ['callable', 'literal', 'override', 'typed']      # outcome classes every run must produce (guards against a part of the exploration silently not running)
 RULE = ("state = ordered pair (expected, actual) of def signatures over all parameter kinds/default patterns with parameter names drawn injectively from a 3-name pool, "
         "plus typed pairs; real calls: KnownValue(expected).can_assign(KnownValue(actual)) (function-literal route) and CallableValue(signature).can_assign (Callable route); "
         "oracle: bind tables computed by really calling both functions with every call shape (<= 3 positionals, <= 3 keywords): accepted and expected binds c => actual binds c; "
